@@ -76,6 +76,7 @@ type Obligation struct {
 }
 
 type Exec struct {
+	perPathPosts bool // postconditions are being evaluated return by return (finish)
 	entryAssumes int // assumptions in force before the body starts (axioms, requires, well-formedness of parameters)
 	oblLoopFrom  int // set while the invariants of a loop are checked at a back edge
 	axiomTerms map[*Term]string // package axioms among assumes (filtered by relevance when a query is printed)
@@ -240,7 +241,7 @@ func (e *Exec) oblige(kind, detail string, cond *Term, props []string, src strin
 	}
 	r := e.root()
 	goal := Implies(e.guard(), cond)
-	if cond == True && (kind == "post" || kind == "inv-preserved") && e.guard() != False {
+	if cond == True && (kind == "post" || kind == "inv-preserved") && e.guard() != False && !e.perPathPosts {
 		// vacuity guard: a contract clause that folds to `true` while it is being built says nothing
 		r.notes = append(r.notes, fmt.Sprintf("VACUOUS? clause %s:%s of %s is syntactically true (%s)", kind, detail, FuncKey(r.Fn), src))
 	}
@@ -1919,17 +1920,61 @@ func (e *Exec) finish() {
 	}
 	e.probe("exit")
 	env := e.exitEnv()
-	for i, en := range e.C.Ensures {
-		t := e.evalContractBool(en.Expr, env, "ensures")
-		label := en.Label
-		if label == "" {
-			label = fmt.Sprintf("%d", i+1)
+	if len(e.retInfos) > 1 && os.Getenv("GOVC_MERGED_POSTS") != "1" {
+		// Postconditions are checked return by return, each in the state of its own path: the merged exit state is an
+		// ite over whole heap components, and a quantified clause over it makes the solvers split cases under the
+		// quantifier (obligations of functions with several returns took 30-40 s that take well under a second per path).
+		// The conjunction over the paths is equivalent to the check on the merged state. The ordinal at the end of the
+		// obligation name counts the returns in source order.
+		mExit, mResults, mCond, mReach, mState := e.exit, e.results, e.exitCond, e.curReach, e.curState
+		e.perPathPosts = true
+		nonTrivial := map[string]bool{}
+		for _, r := range e.retInfos {
+			e.exit, e.curState = r.state, r.state
+			e.results = append([]Val(nil), r.results...)
+			e.exitCond, e.curReach = r.cond, r.cond
+			penv := e.exitEnv()
+			for i, en := range e.C.Ensures {
+				t := e.evalContractBool(en.Expr, penv, "ensures")
+				label := en.Label
+				if label == "" {
+					label = fmt.Sprintf("%d", i+1)
+				}
+				props := en.Props
+				if len(props) == 0 {
+					props = e.C.Props
+				}
+				if t != True {
+					nonTrivial[label] = true
+				}
+				e.oblige("post", label, t, props, en.Src)
+			}
 		}
-		props := en.Props
-		if len(props) == 0 {
-			props = e.C.Props
+		e.perPathPosts = false
+		for i, en := range e.C.Ensures {
+			label := en.Label
+			if label == "" {
+				label = fmt.Sprintf("%d", i+1)
+			}
+			if !nonTrivial[label] {
+				// vacuity guard: the clause folds to `true` on every return path
+				e.root().notes = append(e.root().notes, fmt.Sprintf("VACUOUS? clause post:%s of %s is syntactically true on every return path (%s)", label, FuncKey(e.Fn), en.Src))
+			}
 		}
-		e.oblige("post", label, t, props, en.Src)
+		e.exit, e.results, e.exitCond, e.curReach, e.curState = mExit, mResults, mCond, mReach, mState
+	} else {
+		for i, en := range e.C.Ensures {
+			t := e.evalContractBool(en.Expr, env, "ensures")
+			label := en.Label
+			if label == "" {
+				label = fmt.Sprintf("%d", i+1)
+			}
+			props := en.Props
+			if len(props) == 0 {
+				props = e.C.Props
+			}
+			e.oblige("post", label, t, props, en.Src)
+		}
 	}
 	if e.C.Flags["readonly"] {
 		e.checkReadonly(nil)
